@@ -82,7 +82,8 @@ def _minimum(a, b):
     # numpy: propagates NaN
     if not is_sym(a) and not is_sym(b):
         return np.minimum(a, b)
-    c = a <= b
+    # x86 minpd / maxpd semantics of numpy's loops: the SECOND operand is returned when the two compare equal (signed zeros)
+    c = a < b
     r = ite(c, a, b) if isinstance(c, SBool) else (a if c else b)
     if core.ctx().profile == "fp":
         na, nb = core.isnan(a), core.isnan(b)
@@ -93,7 +94,7 @@ def _minimum(a, b):
 def _maximum(a, b):
     if not is_sym(a) and not is_sym(b):
         return np.maximum(a, b)
-    c = a >= b
+    c = a > b
     r = ite(c, a, b) if isinstance(c, SBool) else (a if c else b)
     if core.ctx().profile == "fp":
         na, nb = core.isnan(a), core.isnan(b)
